@@ -11,14 +11,15 @@ func multiPolygonReader(r io.Reader, byteOrder binary.ByteOrder) (geom.Geom, err
 	if err := binary.Read(r, byteOrder, &numPolygons); err != nil {
 		return nil, err
 	}
-	polygons := make([]geom.Polygon, numPolygons)
+	// The count is not trusted (see readPoints): the slice grows as members are read.
+	polygons := []geom.Polygon{}
 	for i := uint32(0); i < numPolygons; i++ {
 		if g, err := Read(r); err == nil {
-			var ok bool
-			polygons[i], ok = g.(geom.Polygon)
+			polygon, ok := g.(geom.Polygon)
 			if !ok {
 				return nil, &UnexpectedGeometryError{g}
 			}
+			polygons = append(polygons, polygon)
 		} else {
 			return nil, err
 		}
